@@ -264,7 +264,9 @@ pub fn gen_trailers(rng: &mut Rng) -> Vec<Vec<u8>> {
 pub fn te_spelling(rng: &mut Rng) -> (Vec<u8>, Vec<u8>) {
     let names: [&[u8]; 3] = [b"Transfer-Encoding", b"transfer-encoding", b"TRANSFER-ENCODING"];
     // optional whitespace around list members is SP or HTAB
-    let vals: [&[u8]; 9] = [b"chunked", b"Chunked", b"CHUNKED", b"chunkeD", b"identity, chunked", b"\tchunked", b"chunked\t ", b"identity,\tchunked", b"identity \t,\t chunked"];
+    // …and a list may hold empty elements, which a recipient ignores (RFC 9110 §5.6.1.2): `chunked,` names one
+    // coding, chunked (seed C02-seed12: "the last element" taken from the raw comma split)
+    let vals: [&[u8]; 14] = [b"chunked", b"Chunked", b"CHUNKED", b"chunkeD", b"identity, chunked", b"\tchunked", b"chunked\t ", b"identity,\tchunked", b"identity \t,\t chunked", b"chunked,", b"chunked, ", b",chunked,,", b" , chunked ,", b"identity,,chunked,\t"];
     (rng.pick(&names).to_vec(), rng.pick(&vals).to_vec())
 }
 
